@@ -221,6 +221,10 @@ class BudgetExceeded(IOError):
     """Raised by SparseFile when the armed I/O budget is exceeded, or a single read is absurdly large."""
 
 
+class InjectedFault(OSError):
+    """The one-shot transient I/O error a SparseFile raises when armed (fault_in): the caller's storage hiccups once."""
+
+
 MAX_SINGLE_READ = 1 << 28  # 256 MiB: a single fh.read() this large means the library scans / slurps
 
 
@@ -240,6 +244,8 @@ class SparseFile(Extents):
         self.forbidden: list[tuple[int, int]] = []  # ranges that must never be touched (C13)
         self.touched_forbidden: list[tuple[int, int]] = []
         self.closed = False
+        self.fault_in: int | None = None  # armed: the fault_in-th read() call from now raises InjectedFault once
+        self.fault_fired = False
 
     # -- building helpers -------------------------------------------------
     def grow(self, size: int) -> None:
@@ -291,6 +297,14 @@ class SparseFile(Extents):
         n = min(n, max(0, self.size - self._pos))
         if n > MAX_SINGLE_READ:
             raise BudgetExceeded(f"single read of {n} bytes at {self._pos:#x}")
+        if self.fault_in is not None:
+            self.fault_in -= 1
+            if self.fault_in <= 0:
+                self.fault_in = None
+                self.fault_fired = True
+                import errno
+
+                raise InjectedFault(errno.EIO, "Input/output error (injected once)")
         self.n_reads += 1
         self.bytes_read += n
         if self.budget is not None and self.bytes_read > self.budget:
